@@ -141,7 +141,8 @@ CHECKS['C18'] = {
     'text': ('Proof of loop bounds for every input: each per-name loop (both name walkers) has a constant iteration bound found automatically (name_len - refs_allowed in [-16,255] => <= 272; name_len <= 255 => <= 128); '
              'the three section loops advance `offset` (<= len) by >= 11 bytes per iteration and the option loop is bounded; parse_rr / parse_question / skip_name are loop-free with a constant number of walk call sites. '
              'Both arithmetic configurations (overflow checks on and off) are ranked on every run and a bound that is only the range of a counter\'s integer type is refused. '
-             'Hence steps <= a*len + b (the derived formula is printed in the evidence). A per-name loop whose best measure is only bounded by the buffer length is reported as quadratic.'),
+             'Hence steps <= a*len + b (the derived formula is printed in the evidence). A per-name loop whose best measure is only bounded by the buffer length is reported as quadratic.'
+             ' Every external callee reachable from the per-record functions (walkers excluded) is listed as constant-time in tables/extern_cost.json and the validator keeps no growable collection besides the packet.'),
     'note': 'Trusted: analysis/interp.py, analysis/lin.py, rustc MIR. The cost model counts loop iterations and label bytes, as the property does; no step-counter hook is needed.',
 }
 CHECKS['C15'] = {
@@ -164,7 +165,8 @@ CHECKS['C14'] = {
     'text': ('Decides for every input string: (a) the conversion cannot panic (slice ranges, u8 counter overflow), the one obligation needing label_start <= len discharged by a checked structural lemma; '
              '(b) every label length byte it emits lies in [1, 62] (exactly the documented limit, hence never a pointer marker) and the terminator is 0; (c) every Ok exit leaves at most 253 bytes in the output buffer. '
              'NOT decided: that the emitted labels are exactly the dot-separated input labels (needs the invariant label_len = i - label_start, which the domain does not derive), the read-back through raw_name_to_str, and the exact accepted language.'
-             ' (d) in name() and question() every decoded name passes the standard ASCII lower-casing on every path to the return.'),
+             ' (d) in name() and question() every decoded name passes the standard ASCII lower-casing on every path to the return.'
+             ' (e) a rejection decided on the text length alone refuses only lengths >= 253; (d) uses the decoder\'s per-byte map evaluated for all 256 values.'),
     'note': 'Trusted: slice-iterator/enumerate/Vec contracts and the linear domain. The round-trip equality is a run-time relation.',
 }
 CHECKS['C02'] = {
@@ -185,7 +187,8 @@ CHECKS['C05'] = {
     'design_ref': 'DESIGN.md section 4, C05',
     'text': ('Decides: (a) uncompress_rdata expands names in exactly the validator\'s name-bearing types; (b) each data length it rewrites provably equals the bytes emitted behind the record header (E4 equalities, incl. the lemma that copy_uncompressed_name returns the growth of its output), '
              'fixed parts 4/10/12/20 and name-walk start positions (second SOA name at the first one\'s wire end); (c) the additional section is walked with OPT included in every re-emitter; (d) the reference-offset test precedes the first append of each record and the end-of-packet boundary is translated; '
-             '(e) copy_uncompressed_name keeps the position behind the first pointer exactly like the validator\'s walker. NOT decided: byte identity of the expanded names, idempotence, acceptance of the output (run-time relations).'),
+             '(e) copy_uncompressed_name keeps the position behind the first pointer exactly like the validator\'s walker. NOT decided: byte identity of the expanded names, idempotence, acceptance of the output (run-time relations).'
+             ' (g) every section walk expands the owner name with copy_raw_name in the same loop iteration; no name_slice bytes are appended to the output.'),
     'note': 'Trusted: analysis/interp.py contracts, tables/policy.json, rustc MIR.',
 }
 CHECKS['C06'] = {
